@@ -20,6 +20,9 @@ initialX, minX, maxX, tolerance, convergenceLimit float64, maxIterations int) (x
 
 		halvingX := maxX - (maxX-minX)*0.5
 		bisectionX := maxX - (maxX-minX)*maxDelta/(maxDelta-minDelta)
+		// Rounding can carry the secant point just past a bracket end (e.g. when
+		// the function is zero at minX); never evaluate outside the bracket
+		bisectionX = math.Max(minX, math.Min(maxX, bisectionX))
 
 		trialXs = append(trialXs, halvingX, bisectionX)
 
